@@ -1,97 +1,203 @@
 # Per-property check configuration: which harness entry points run in which tier, with which
-# packages loaded from source (interpreted) and which bounds.
+# packages loaded from source (interpreted by symgo) and which bounds. tools/gen_manifest.py turns
+# the "claim" entries into MANIFEST.json.
 M = "github.com/vimeo/dials"
 CC = M + "/tagformat/caseconversion"
+PARSE = M + "/parse"
 LIBS = ["strings", "unicode/utf8", "strconv"]
+CORE = [M + "/ptrify", M + "/common", "strings", "unicode/utf8", "strconv", "go/token"]
+SW = [M, M + "/ptrify", M + "/common", M + "/transform", M + "/parse", "strings", "unicode/utf8", "strconv", "go/token"]
+TEXT = ["strings", "unicode/utf8", "strconv", "text/scanner", "bytes", "io", "go/token"]
+
+COMMON_ASSUME = [
+    "front end go/packages + go/ssa (x/tools v0.29.0) and go/types; symgo executor semantics for SSA, maps (insertion-ordered), strings, panics",
+    "z3 5.1.0 answers (sat/unsat) are trusted; unknown/error answers are reported as inconclusive",
+    "fmt formatting is opaque (error identity, %w chains and nil-ness preserved)",
+]
+CONC_ASSUME = COMMON_ASSUME + [
+    "data-race freedom: a goroutine runs atomically between two synchronisation operations (channel ops, select, atomics, mutex, context cancel/Err, harness events)",
+    "sleep-set partial-order reduction over read/write object sets (no Mazurkiewicz trace lost); no preemption bound",
+    "context deadlines/timers never fire (dials creates none); the context model is an intrinsic, not the real package",
+    "reflect is an executable model over go/types (validated natively on sampled paths in the sequential checks)",
+]
+REFLECT_ASSUME = COMMON_ASSUME + [
+    "reflect is an executable model over go/types and the executor's heap; every explored path sampled for validation is re-run natively against the real reflect and must agree",
+]
 
 NOT_APPLICABLE = {
     "C13": "verdict depends on encoding/json, yaml.v2, go-toml and the CUE evaluator, which cannot be encoded; with the decoders stubbed the check would decide the stub (DESIGN.md §5)",
     "C17": "verdict depends on kernel inotify, fsnotify, a real file system and real time; a stub for that environment would be the thing verified (DESIGN.md §5)",
 }
 
-PARSE = M + "/parse"
-SW = [M, M + "/ptrify", M + "/common", M + "/transform", M + "/parse", "strings", "unicode/utf8", "strconv", "go/token"]
-CORE = [M + "/ptrify", M + "/common", "strings", "unicode/utf8", "strconv", "go/token"]
+
+def conc(entry, reach, tiers=None, **kw):
+    r = {"entry": M + "." + entry, "pkgs": CORE, "must_reach": reach, "instrument": [M], "validate": 0}
+    if tiers:
+        r["tiers"] = tiers
+    r.update(kw)
+    return r
+
+
+def seq(entry, reach, tiers=None, **kw):
+    r = {"entry": M + "." + entry, "pkgs": CORE, "must_reach": reach}
+    if tiers:
+        r["tiers"] = tiers
+    r.update(kw)
+    return r
+
 
 CHECKS = {
     "SMOKE": {"runs": [{"entry": M + ".HarnessL1Smoke", "pkgs": CORE, "must_reach": ["smoke-end"]}]},
-    "C04": {"runs": [
-        {"entry": M + ".HarnessC04Quick", "pkgs": CORE, "must_reach": ["c04-end", "c04-config-rejected"], "instrument": [M], "validate": 0},
-        {"entry": M + ".HarnessC04NonBlocking", "pkgs": CORE, "must_reach": ["c04-end"], "instrument": [M], "validate": 0},
-    ]},
-    "C06": {"runs": [
-        {"entry": M + ".HarnessC06Quick", "pkgs": CORE, "must_reach": ["c06-end"], "instrument": [M], "validate": 0},
-        {"entry": M + ".HarnessC06Unregister", "pkgs": CORE, "must_reach": ["c06-end"], "instrument": [M], "validate": 0},
-    ]},
-    "C07": {"runs": [
-        {"entry": M + ".HarnessC07Quick", "pkgs": CORE, "must_reach": ["c07-end"], "instrument": [M], "validate": 0},
-        {"entry": M + ".HarnessC07Second", "pkgs": CORE, "must_reach": ["c07-end"], "instrument": [M], "validate": 0},
-    ]},
-    "C08": {"runs": [
-        {"entry": M + ".HarnessC08Quick", "pkgs": CORE, "must_reach": ["c08-end"], "instrument": [M], "validate": 0},
-        {"entry": M + ".HarnessC08Seq2", "pkgs": CORE, "must_reach": ["c08-end"], "instrument": [M], "validate": 0},
-        {"entry": M + ".HarnessC08DoubleUnregister", "pkgs": CORE, "must_reach": ["c08-double-unreg-end"], "instrument": [M], "validate": 0},
-        {"entry": M + ".HarnessC08LateCalls", "pkgs": CORE, "must_reach": ["c08-late-end"], "instrument": [M], "validate": 0},
-        {"entry": M + ".HarnessC08BlockedCallback", "pkgs": CORE, "must_reach": ["c08-blocked-end"], "instrument": [M], "validate": 0, "tiers": ["thorough"]},
-    ]},
-    "C09": {"runs": [
-        {"entry": M + ".HarnessC09Quick", "pkgs": CORE, "must_reach": ["c09-end"], "instrument": [M], "validate": 0},
-        {"entry": M + ".HarnessC09NoWatcher", "pkgs": CORE, "must_reach": ["c09-end"], "instrument": [M], "validate": 0},
-    ]},
-    "C20": {"runs": [
-        {"entry": M + "/sourcewrap.HarnessC20TransformStatic", "pkgs": SW, "must_reach": ["c20-static-end"], "instrument": [M, M + "/sourcewrap"], "validate": 0},
-        {"entry": M + "/sourcewrap.HarnessC20TransformWatch", "pkgs": SW, "must_reach": ["c20-watch-end"], "instrument": [M, M + "/sourcewrap"], "validate": 0},
-        {"entry": M + "/sourcewrap.HarnessC20Blank", "pkgs": SW, "must_reach": ["c20-blank-end", "c20-blank-done"], "instrument": [M, M + "/sourcewrap"], "validate": 0},
-    ]},
-    "C01": {"runs": [
-        {"entry": M + ".HarnessC01T1", "pkgs": CORE, "must_reach": ["c01-end"]},
-        {"entry": M + ".HarnessC01T2", "pkgs": CORE, "must_reach": ["c01-end"]},
-        {"entry": M + ".HarnessC01T3L1", "pkgs": CORE, "must_reach": ["c01-end"], "tiers": ["quick"]},
-        {"entry": M + ".HarnessC01T4L1", "pkgs": CORE, "must_reach": ["c01-end"], "tiers": ["quick"]},
-        {"entry": M + ".HarnessC01T5", "pkgs": CORE, "must_reach": ["c01-end"]},
-        {"entry": M + ".HarnessC01T6", "pkgs": CORE, "must_reach": ["c01-end"]},
-        {"entry": M + ".HarnessC01T7", "pkgs": CORE, "must_reach": ["c01-end"]},
-        {"entry": M + ".HarnessC01T3", "pkgs": CORE, "must_reach": ["c01-end"], "tiers": ["thorough"]},
-        {"entry": M + ".HarnessC01T4", "pkgs": CORE, "must_reach": ["c01-end"], "tiers": ["thorough"]},
-        {"entry": M + ".HarnessC01T2L3", "pkgs": CORE, "must_reach": ["c01-end"], "tiers": ["thorough"]},
-        {"entry": M + ".HarnessC01T7L3", "pkgs": CORE, "must_reach": ["c01-end"], "tiers": ["thorough"]},
-    ]},
-    "C02": {"runs": [
-        {"entry": M + ".HarnessC02History2", "pkgs": CORE, "must_reach": ["c02-hist-end"], "instrument": [M], "validate": 0},
-        {"entry": M + ".HarnessC01T4L1", "pkgs": CORE, "must_reach": ["c01-end"], "tiers": ["quick"]},
-        {"entry": M + ".HarnessC01T3L1", "pkgs": CORE, "must_reach": ["c01-end"], "tiers": ["quick"]},
-        {"entry": M + ".HarnessC01T6", "pkgs": CORE, "must_reach": ["c01-end"]},
-        {"entry": M + ".HarnessC02History3", "pkgs": CORE, "must_reach": ["c02-hist-end"], "instrument": [M], "validate": 0, "tiers": ["thorough"]},
-        {"entry": M + ".HarnessC01T4", "pkgs": CORE, "must_reach": ["c01-end"], "tiers": ["thorough"]},
-        {"entry": M + ".HarnessC01T3", "pkgs": CORE, "must_reach": ["c01-end"], "tiers": ["thorough"]},
-    ]},
-    "C03": {"runs": [
-        {"entry": M + ".HarnessC03A2", "pkgs": CORE, "must_reach": ["c03-end"]},
-        {"entry": M + ".HarnessC03B2", "pkgs": CORE, "must_reach": ["c03-end"]},
-        {"entry": M + ".HarnessC03C2", "pkgs": CORE, "must_reach": ["c03-end"]},
-        {"entry": M + ".HarnessC03D2", "pkgs": CORE, "must_reach": ["c03-end"], "native_timeout": 120},
-        {"entry": M + ".HarnessC03ConfigRecursive", "pkgs": CORE, "native_timeout": 120},
-        {"entry": M + ".HarnessC03A3", "pkgs": CORE, "must_reach": ["c03-end"], "tiers": ["thorough"]},
-    ]},
-    "C05": {"runs": [
-        {"entry": M + ".HarnessC05Quick", "pkgs": CORE, "must_reach": ["c05-end"], "instrument": [M], "validate": 0},
-        {"entry": M + ".HarnessC05Seq", "pkgs": CORE, "must_reach": ["c05-end"], "instrument": [M], "validate": 0},
-    ]},
+    "C01": {
+        "claim": {
+            "text": "bounded model checking of the real Config/compose/overlay/deep-copy/Pointerify code over a corpus of 7 config struct types: every set/unset pattern of every leaf in 1-2 (thorough 3) layers is explored and every leaf value is symbolic, so the solver proves 'last source that set it wins, else default' against an independent reference model for all values",
+            "note": "types are a hand-written corpus (enumerated, not solved); layers are built by field name through the pointerified type like decoders do; reflect is a model validated natively on sampled paths; interface-typed config fields are outside",
+            "design_ref": "DESIGN.md §4 C01",
+        },
+        "runs": [seq("HarnessC01T1", ["c01-end"]), seq("HarnessC01T2", ["c01-end"]), seq("HarnessC01T3L1", ["c01-end"], ["quick"]),
+                 seq("HarnessC01T4L1", ["c01-end"], ["quick"]), seq("HarnessC01T5", ["c01-end"]), seq("HarnessC01T6", ["c01-end"]),
+                 seq("HarnessC01T7", ["c01-end"]), seq("HarnessC01T3", ["c01-end"], ["thorough"]), seq("HarnessC01T4", ["c01-end"], ["thorough"]),
+                 seq("HarnessC01T2L3", ["c01-end"], ["thorough"]), seq("HarnessC01T7L3", ["c01-end"], ["thorough"])],
+        "bounds": {"quick": "7 types (scalars/durations, skipped fields in every position, nested+pointer+embedded structs, slices/maps/arrays, user pointers, text-unmarshalable value+pointer, deep nesting); 2 layers (1 for the two biggest types); slices len<=2, maps <=1 entry; all scalar values",
+                   "thorough": "same corpus, 2 layers everywhere, 3 layers on the small types"},
+        "outside": "other struct types; more layers; longer slices/maps; interface-typed fields; floats/complex are drawn from 2-3 concrete values",
+        "assumptions": REFLECT_ASSUME,
+    },
+    "C02": {
+        "claim": {
+            "text": "bounded model checking of isolation: on every explored stacking the set of pointers/maps/slice backing arrays reachable from the view is disjoint from those of the defaults, of every source value and of every other version (identity computed on the executor's heap, natively via reflect), the defaults are unchanged, and every version equals a fresh reference stack; histories of 2 (thorough 3) re-stacks through the real monitor",
+            "note": "same corpus and reflect model as C01; history part uses one static and one watching source",
+            "design_ref": "DESIGN.md §4 C02",
+        },
+        "runs": [conc("HarnessC02History2", ["c02-hist-end"]), seq("HarnessC01T4L1", ["c01-end"], ["quick"]), seq("HarnessC01T3L1", ["c01-end"], ["quick"]),
+                 seq("HarnessC01T6", ["c01-end"]), conc("HarnessC02History3", ["c02-hist-end"], ["thorough"]),
+                 seq("HarnessC01T4", ["c01-end"], ["thorough"]), seq("HarnessC01T3", ["c01-end"], ["thorough"])],
+        "bounds": {"quick": "corpus types T3,T4,T6 with 1-2 layers; 2 re-stacks with symbolic set/unset of a nested-pointer leaf and a scalar",
+                   "thorough": "2 layers on T3/T4; 3 re-stacks"},
+        "outside": "other types; longer histories",
+        "assumptions": REFLECT_ASSUME,
+    },
+    "C03": {
+        "claim": {
+            "text": "bounded model checking of the real deep copier on every object graph over 6 recursive node families with <=2 (thorough 3) nodes: every edge set (nil, self loops, cycles, diamonds, shared maps, references in slices/arrays/maps/interfaces, typed nil in interface) is explored; result deep-equal, identity relation of pointer/map references isomorphic, all references fresh, recursion bounded",
+            "note": "Config itself cannot be driven with recursive config types: ptrify.Pointerify does not terminate on them (open known finding, replayed natively as a stack overflow); the graph properties are checked on realDeepCopy, which Config, compose and overlay go through",
+            "design_ref": "DESIGN.md §4 C03",
+        },
+        "runs": [seq("HarnessC03A2", ["c03-end"]), seq("HarnessC03B2", ["c03-end"]), seq("HarnessC03C2", ["c03-end"]),
+                 seq("HarnessC03D2", ["c03-end"], native_timeout=120), seq("HarnessC03ConfigRecursive", [], native_timeout=120),
+                 seq("HarnessC03E", ["c03-end"]), seq("HarnessC03F2", ["c03-end"]), seq("HarnessC03A3", ["c03-end"], ["thorough"])],
+        "bounds": {"quick": "families A (pointer fields), B (maps), C (slices/arrays), D (interfaces), E (maps of maps), F (refs after unexported fields); N<=2 nodes; call depth bound 400 (unwinding assertion)",
+                   "thorough": "plus family A with 3 nodes"},
+        "outside": "more nodes; other node shapes; re-stacking of recursive types (blocked by the Pointerify finding)",
+        "assumptions": REFLECT_ASSUME,
+    },
+    "C04": {
+        "claim": {
+            "text": "bounded model checking of the real Config/monitor/updateSourceValue/callback code under all interleavings: 2 (thorough 3) updates of arbitrary validity, all four Skip/Delay combinations, a concurrent reader of ViewVersion/Events; every observed config is valid while verification is active, rejected updates leave pointer, serial and contents unchanged, blocking reports return the Verify error, OnWatchedError/OnNewConfig get exactly the documented arguments",
+            "note": "validity is a symbolic flag stacked from the source (arbitrary valid/invalid alternation); counterexamples are replayed natively under the recorded goroutine schedule",
+            "design_ref": "DESIGN.md §4 C04",
+        },
+        "runs": [conc("HarnessC04Quick", ["c04-end", "c04-config-rejected"]), conc("HarnessC04NonBlocking", ["c04-end"]),
+                 conc("HarnessC04Thorough", ["c04-end"], ["thorough"])],
+        "bounds": {"quick": "1 watching source, 2 updates (blocking and plain), reader with 2 reads; all schedules", "thorough": "3 updates"},
+        "outside": "more updates/sources; callback queue overflow (64) is not reached",
+        "assumptions": CONC_ASSUME,
+    },
+    "C05": {
+        "claim": {
+            "text": "bounded model checking under all interleavings of 2 watching sources with 1+1 / 2+1 (thorough 2+2, 3+1) reports and a concurrent reader: the final view equals a fresh stack of the latest reported values folded in monitor-receive order (last valid one), serials count installs, a (config, serial) pair read together always belongs together, no reader sees the serial go backwards",
+            "note": "the receive order is a ghost log appended in the same atomic step as the rendezvous with the monitor",
+            "design_ref": "DESIGN.md §4 C05",
+        },
+        "runs": [conc("HarnessC05Quick", ["c05-end"]), conc("HarnessC05Seq", ["c05-end"]),
+                 conc("HarnessC05Thorough", ["c05-end"], ["thorough"]), conc("HarnessC05Three", ["c05-end"], ["thorough"])],
+        "bounds": {"quick": "2 sources; 1+1 reports with 2 concurrent reads, 2+1 reports without reader; all values symbolic; all schedules",
+                   "thorough": "2+2 reports with 2 reads; 3+1 reports with 1 read"},
+        "outside": "longer histories; 2^64 serial wrap",
+        "assumptions": CONC_ASSUME,
+    },
+    "C06": {
+        "claim": {
+            "text": "bounded model checking under all interleavings of version installs with ViewVersion+RegisterCallback (fresh, stale, zero serial) and unregister: callbacks never overlap, OnNewConfig sees every version in order with its predecessor, a handle never receives a version <= its registration version or <= one already received, ordinary calls carry the immediate predecessor, catch-up is the only jump, nothing is delivered after unregister returned true, and a handle that keeps up ends at the latest version without gaps",
+            "note": "both orders of store / registration queued / event queued arise from the scheduler (no hooks); ordering among different registered callbacks within one event is not asserted",
+            "design_ref": "DESIGN.md §4 C06",
+        },
+        "runs": [conc("HarnessC06Quick", ["c06-end"]), conc("HarnessC06Unregister", ["c06-end"]), conc("HarnessC06Thorough", ["c06-end"], ["thorough"])],
+        "bounds": {"quick": "2 installs, 1 registrar (3 serial modes), optional unregister; all schedules", "thorough": "3 installs, slow callbacks"},
+        "outside": "drop-on-overflow (queue of 64 never fills); several registrars",
+        "assumptions": CONC_ASSUME,
+    },
+    "C07": {
+        "claim": {
+            "text": "bounded model checking of BlockingReportNewValue racing with the cancellation of its own context at every point (before submission, between submission and installation, after), optionally with a plain report from another source: nil => stacked and visible, Verify error => rejected and view unchanged, otherwise a context error; afterwards the monitor still serves another blocking report (not left blocked on the departed caller)",
+            "note": "Blank.SetSource is covered in C20's Blank harness (it calls this method under a mutex)",
+            "design_ref": "DESIGN.md §4 C07",
+        },
+        "runs": [conc("HarnessC07Quick", ["c07-end"]), conc("HarnessC07Second", ["c07-end"])],
+        "bounds": {"quick": "1 blocking report + canceller goroutine (+1 plain report); all schedules", "thorough": "same"},
+        "outside": "several concurrent blocking reporters",
+        "assumptions": CONC_ASSUME,
+    },
+    "C08": {
+        "claim": {
+            "text": "bounded model checking of liveness/safety of the public API under all interleavings: 1+1 (thorough 2+1) operations drawn from {report, report error, Done, register, unregister, EnableVerification, cancel, blocking report} on two goroutines; no panic in any goroutine, no call blocks past its context, after shutdown no dials goroutine is alive; double unregister; every API call issued after shutdown (cancel or last watcher Done); thorough: a callback blocked forever does not stop 67 installs + source errors beyond the 64-slot queue",
+            "note": "contexts passed to calls end at quiescence (a watchdog cancels them when nothing else can move), modelling 'the context eventually ends'",
+            "design_ref": "DESIGN.md §4 C08",
+        },
+        "runs": [conc("HarnessC08Quick", ["c08-end"]), conc("HarnessC08Seq2", ["c08-end"]), conc("HarnessC08DoubleUnregister", ["c08-double-unreg-end"]),
+                 conc("HarnessC08LateCalls", ["c08-late-end"]), conc("HarnessC08BlockedCallback", ["c08-blocked-end"], ["thorough"]),
+                 conc("HarnessC08Thorough", ["c08-end"], ["thorough"])],
+        "bounds": {"quick": "2 callers x 1 op, 2 sequential ops, 8-op alphabet, delay on/off; all schedules", "thorough": "2+1 ops; blocked-callback run of 67 updates"},
+        "outside": "longer operation sequences; more than 2 callers",
+        "assumptions": CONC_ASSUME,
+    },
+    "C09": {
+        "claim": {
+            "text": "bounded model checking of delayed verification: all four Delay x CallGlobalCallbacksAfterVerificationEnabled combinations, with and without a watching source, every sequence of 3 (thorough 4) events from {EnableVerification, update of arbitrary validity, source error}: Verify is never called before enabling, enabling verifies exactly the installed config and returns it with its serial, failure keeps the delay, and global callbacks are withheld exactly while delay-in-force and the option is set",
+            "note": "sequential harness (events are issued from one goroutine, callbacks observed at quiescence); racing EnableVerification with an in-flight update is covered by the schedules of the monitor/reporter rendezvous",
+            "design_ref": "DESIGN.md §4 C09",
+        },
+        "runs": [conc("HarnessC09Quick", ["c09-end"]), conc("HarnessC09NoWatcher", ["c09-end"]), conc("HarnessC09Race", ["c09-race-end"]),
+                 conc("HarnessC09Thorough", ["c09-end"], ["thorough"])],
+        "bounds": {"quick": "3 events; 4 option combinations; initial validity symbolic", "thorough": "4 events"},
+        "outside": "longer event sequences",
+        "assumptions": CONC_ASSUME,
+    },
     "C15": {
         "claim": {
-            "text": "bounded model checking of the real parse package: for every 64-bit literal value, in every Go literal style and padding, the integral parsers accept it iff it is in the target type's range and then return exactly that value (solver-quantified over the value; strconv.ParseInt/ParseUint modelled by their documented contract with base and bit size checked)",
-            "note": "strconv.ParseInt/ParseUint on opaque literals are contract stubs (base 0/10 rules, range clamp + ErrRange); floats, complex and durations are outside (strconv/time round-trips are not encoded)",
+            "text": "bounded model checking of the real parse package: for every 64-bit literal value, in every Go literal style and padding, the integral parsers and parse.String accept it iff it is in the target type's range and then return exactly that value (solver-quantified over the value; strconv.ParseInt/ParseUint modelled by their documented contract with base and bit size checked); integer flag helpers round-trip String()/Set() for every value; string slices/sets/maps round-trip their canonical quoted form for every payload byte",
+            "note": "strconv.ParseInt/ParseUint/FormatInt/FormatUint on symbolic integers are contract stubs over an opaque literal; floats, complex and durations are outside (strconv/time round-trips are not encoded)",
             "design_ref": "DESIGN.md §4 C15",
         },
         "runs": [
-            {"entry": PARSE + ".HarnessC15IntSlices", "pkgs": LIBS, "must_reach": ["c15-signed-end", "c15-unsigned-end"],
-             "bounds_text": "11 instantiations x 5 literal styles x paddings; value = any int64/uint64"},
-            {"entry": PARSE + ".HarnessC15IntSliceWide", "pkgs": LIBS, "must_reach": ["c15-wide-end"], "bounds_text": "literals of magnitude 2^64; negative into unsigned"},
-            {"entry": PARSE + ".HarnessC15IntSliceTwo", "pkgs": LIBS, "must_reach": ["c15-two-end"], "bounds_text": "two elements, each any int64, styles x paddings"},
+            {"entry": PARSE + ".HarnessC15IntSlices", "pkgs": LIBS, "must_reach": ["c15-signed-end", "c15-unsigned-end"]},
+            {"entry": PARSE + ".HarnessC15IntSliceWide", "pkgs": LIBS, "must_reach": ["c15-wide-end"]},
+            {"entry": PARSE + ".HarnessC15IntSliceTwo", "pkgs": LIBS, "must_reach": ["c15-two-end"]},
+            {"entry": PARSE + ".HarnessC15ParseStringInts", "pkgs": LIBS, "must_reach": ["c15-parsestring-end"]},
         ],
-        "bounds": {"quick": "1-2 elements; all 64-bit values; 5 literal styles; 4 paddings", "thorough": "same plus string-structure harnesses"},
-        "outside": "floats/complex/durations; literals wider than 2^64 other than the probe; more than 2 elements",
-        "assumptions": ["strconv.ParseInt/ParseUint contract stub on opaque literals (concrete and symbolic-byte strings run the real strconv)", "go/ssa + go/types front end, symgo executor semantics, z3 5.1.0"],
+        "bounds": {"quick": "11 integral-slice instantiations and 12 parse.String integer types x 5 literal styles x paddings; value = any int64/uint64; 1-2 elements",
+                   "thorough": "same plus structure harnesses"},
+        "outside": "floats/complex/durations; more than 2 elements; literals wider than 64 bits other than the 2^64 probe",
+        "assumptions": COMMON_ASSUME + ["strconv.ParseInt/ParseUint/FormatInt/FormatUint contract stubs on opaque literals (concrete and symbolic-byte strings run the real strconv)"],
+    },
+    "C16": {
+        "claim": {
+            "text": "bounded model checking of panic/termination freedom: every byte string (including invalid UTF-8) of length <=2 (thorough <=3) through every text entry point of parse (slices, sets, maps, parse.String per kind, integral slices) and every case decoder, and every word list of arbitrary bytes through every encoder: no runtime panic (index, slice, nil, reflect misuse), loop and recursion bounds not exhausted",
+            "note": "text half plus the type half for the sources that are encoded (env / flatten / string-cast with named types, see C11); file decoders (json/yaml/toml/cue) and pflag are outside",
+            "design_ref": "DESIGN.md §4 C16",
+        },
+        "runs": [
+            {"entry": PARSE + ".HarnessC16ParseTextQuick", "pkgs": TEXT, "must_reach": ["c16-text-end"], "loopcap": 300, "tiers": ["quick"]},
+            {"entry": CC + ".HarnessC16DecodeQuick", "pkgs": LIBS + ["go/token"], "must_reach": ["c16-decode-end"], "loopcap": 300, "tiers": ["quick"]},
+            {"entry": CC + ".HarnessC16EncodeQuick", "pkgs": LIBS + ["go/token"], "must_reach": ["c16-encode-end"], "loopcap": 300, "tiers": ["quick"]},
+            {"entry": PARSE + ".HarnessC16ParseTextThorough", "pkgs": TEXT, "must_reach": ["c16-text-end"], "loopcap": 300, "tiers": ["thorough"]},
+            {"entry": CC + ".HarnessC16DecodeThorough", "pkgs": LIBS + ["go/token"], "must_reach": ["c16-decode-end"], "loopcap": 300, "tiers": ["thorough"], "workers": 16},
+            {"entry": CC + ".HarnessC16EncodeThorough", "pkgs": LIBS + ["go/token"], "must_reach": ["c16-encode-end"], "loopcap": 300, "tiers": ["thorough"]},
+        ],
+        "bounds": {"quick": "all byte strings of length <=2; word lists of <=2 words x <=1 byte; loop header visits <=300 per frame, call depth <=400",
+                   "thorough": "all byte strings of length <=3; words of <=2 bytes"},
+        "outside": "longer inputs; float/complex text (strconv.ParseFloat on symbolic bytes is not explored); unicode predicates above U+00FF are uninterpreted",
+        "assumptions": COMMON_ASSUME + ["text/scanner, strconv, strings, bytes, utf8 are interpreted from the toolchain's source"],
     },
     "C19": {
         "claim": {
@@ -100,22 +206,32 @@ CHECKS = {
             "design_ref": "DESIGN.md §4 C19",
         },
         "runs": [
-            {"entry": CC + ".HarnessC19InverseQuick", "pkgs": LIBS, "tiers": ["quick"], "must_reach": ["c19-inverse-end"],
-             "bounds_text": "6 schemes; <=3 words of 1..3 bytes, total <=5 bytes; every byte symbolic in [a-z][a-z0-9]*"},
-            {"entry": CC + ".HarnessC19GoIdentQuick", "pkgs": LIBS + ["go/token"], "tiers": ["quick"], "must_reach": ["c19-goident-end"],
-             "bounds_text": "identifiers of <=2 parts; part = any of the 38 initialisms or a capitalised word [A-Z][a-z]{1,2} with symbolic letters"},
-            {"entry": CC + ".HarnessC19InverseThorough", "pkgs": LIBS, "tiers": ["thorough"], "must_reach": ["c19-inverse-end"],
-             "bounds_text": "6 schemes; <=3 words of 1..4 bytes, total <=8 bytes"},
-            {"entry": CC + ".HarnessC19GoIdentThorough", "pkgs": LIBS + ["go/token"], "tiers": ["thorough"], "must_reach": ["c19-goident-end"],
-             "bounds_text": "identifiers of <=3 parts; words [A-Z][a-z]{1,3}"},
+            {"entry": CC + ".HarnessC19InverseQuick", "pkgs": LIBS, "tiers": ["quick"], "must_reach": ["c19-inverse-end"]},
+            {"entry": CC + ".HarnessC19GoIdentQuick", "pkgs": LIBS + ["go/token"], "tiers": ["quick"], "must_reach": ["c19-goident-end"]},
+            {"entry": CC + ".HarnessC19InverseThorough", "pkgs": LIBS, "tiers": ["thorough"], "must_reach": ["c19-inverse-end"]},
+            {"entry": CC + ".HarnessC19GoIdentThorough", "pkgs": LIBS + ["go/token"], "tiers": ["thorough"], "must_reach": ["c19-goident-end"]},
         ],
-        "bounds": {"quick": "word lists: W<=3, |w|<=3, total<=5 bytes; identifiers: <=2 parts",
-                   "thorough": "word lists: W<=3, |w|<=4, total<=8 bytes; identifiers: <=3 parts"},
+        "bounds": {"quick": "word lists: W<=3, |w|<=3, total<=5 bytes; identifiers: <=2 parts, words [A-Z][a-z]{1,2}",
+                   "thorough": "word lists: W<=3, |w|<=4, total<=8 bytes; identifiers: <=3 parts, words [A-Z][a-z]{1,3}"},
         "outside": "longer words/lists; non-ASCII letters (unicode predicates above U+00FF are uninterpreted); x/text cases.Title replaced by its ASCII contract",
-        "assumptions": [
+        "assumptions": COMMON_ASSUME + [
             "cases.Title(language.English, cases.NoLower).String(w) upper-cases the first byte of an ASCII word and changes nothing else (stub; the native replay uses the real x/text)",
             "unicode.Is*/To* are evaluated through Latin-1 tables generated from the toolchain's unicode package; runes >= U+0100 are uninterpreted",
-            "go/ssa + go/types front end, symgo executor semantics, z3 5.1.0",
         ],
+    },
+    "C20": {
+        "claim": {
+            "text": "bounded model checking of the real sourcewrap wrappers with the real transformer, string-casting mangler and parse code: initial value and every later (plain and blocking) update of a wrapped static/watching source arrive reverse-translated for every integer value, inner/translate errors propagate; Blank: every sequence of 3 operations from {SetSource plain, SetSource failing, SetSource watcher, Done} delegates to the most recent inner source, refuses to replace a watcher, and keeps the view consistent",
+            "note": "mangler list = string casting (type-changing, so un-reversed values cannot pass); other mangler lists are covered by C10",
+            "design_ref": "DESIGN.md §4 C20",
+        },
+        "runs": [
+            {"entry": M + "/sourcewrap.HarnessC20TransformStatic", "pkgs": SW, "must_reach": ["c20-static-end"], "instrument": [M, M + "/sourcewrap"], "validate": 0},
+            {"entry": M + "/sourcewrap.HarnessC20TransformWatch", "pkgs": SW, "must_reach": ["c20-watch-end"], "instrument": [M, M + "/sourcewrap"], "validate": 0},
+            {"entry": M + "/sourcewrap.HarnessC20Blank", "pkgs": SW, "must_reach": ["c20-blank-end", "c20-blank-done"], "instrument": [M, M + "/sourcewrap"], "validate": 0},
+        ],
+        "bounds": {"quick": "1 wrapped source, 3 updates, all int64 values; Blank: 3 operations", "thorough": "same"},
+        "outside": "other mangler lists on the watch path; transforming decoders (C10/C14)",
+        "assumptions": CONC_ASSUME,
     },
 }
